@@ -42,6 +42,19 @@ impl<'v> Value<'v> {
     pub fn by_ref<'b>(&'b self) -> (r: Value<'b>) ensures r@ == self@ { unimplemented!() }
 }
 
+// assumed: core/src/str.rs `Str::get` returns the text this string holds (PROVED on the real impl in core_str_cmp:
+// `r@ == self.text()`, with `bytes() == encode_utf8(text())`; the view of the mirror is `bytes()`). A `str` IS its
+// content (vstd's `str` is not extensional by itself): every `&str` with these bytes is the returned one - this is
+// what lets a `match key.get() { CONST => .. }` be decided.
+impl<'k> Str<'k> {
+    #[verifier::external_body]
+    pub const fn get(&self) -> (r: &str)
+        ensures
+            r.spec_bytes() == self@,
+            forall|s: &str| #[trigger] s.spec_bytes() == self@ ==> s == r,
+    { unimplemented!() }
+}
+
 // The order on keys is the order of `str`: lexicographic on bytes.
 pub open spec fn lex_lt(a: Seq<u8>, b: Seq<u8>) -> bool
     decreases a.len()
